@@ -8,4 +8,16 @@ CLAIMS = {
         "technique": T,
     },
 }
+CLAIMS["C01"] = {
+    "text": "TLC checks on Fasta.tla that the byte state machine of read() equals the line-based denotation on every input <= 6 (thorough 8) bytes over {>,LF,CR,A,B}, and that every layout (all cut sets x 1-2 LF/CRLF terminators per line x final newline kept/dropped) of every record list of a pool decodes to the list; the writer model satisfies the property-level contract. Every finished layout of the model is read by the real Reader (leg R). Real Write/MarshalText/Reader events with the real width 80, all byte contents and lengths 0..70 001 (thorough 4 MiB) are judged by Trace_Fasta (writer contract, Write = MarshalText, spec reader decodes the real writer's text, real reader decodes own output, spec text and seeded layouts).",
+    "ref": "DESIGN.md section 6 C01",
+    "note": "Trusted: TLC, fmt/bufio/bytes (exercised, not modelled), the projection of records to byte arrays. Exhaustive only within the model's byte classes and lengths; seeded beyond.",
+    "technique": T,
+}
+CLAIMS["C02"] = {
+    "text": "TLC checks on Fastq.tla that the four-Scan line machine equals the group-of-four denotation on every input <= 6 (8) bytes over {@,+,LF,CR,A}, that every record list of a pool round-trips through the exact four-line writer, and that each of 8 kinds of single structural corruption of each record yields the preceding records, then an error, and no fabricated record. Every model text (valid and corrupted) with the model's item list is read by the real Reader. Real Write/MarshalText/Reader events (reads to 70 001 bytes, thorough 1 MiB and 8 MiB; every record x corruption kind incl. cuts inside a line) are judged by Trace_Fastq; the driver's corruptions are certified by the specification before the code is judged.",
+    "ref": "DESIGN.md section 6 C02",
+    "note": "Trusted: TLC, bufio.Scanner (exercised), projection. Exhaustive within the model's classes/lengths; seeded beyond.",
+    "technique": T,
+}
 PENDING = {}
